@@ -105,12 +105,30 @@ def replay(ob):
             if 1.5 in sp or (1, 2) in sp:
                 return {'reproduced': True, 'detail': 'an object without a space is a member of %r' % (sp,)}
         return {'reproduced': False, 'detail': 'membership coherent on the native pool'}
+    if ob['unit'].startswith('derived/astype-chain'):
+        odl, np = _odl()
+        fl = ('float16', 'float32', 'float64', 'complex64', 'complex128')
+        for d0 in fl:
+            for d1 in fl:
+                for d2 in fl:
+                    sp = odl.tensor_space(3, dtype=d0, weighting=2.0, exponent=1.5)      # fresh space: the caches are per instance
+                    cur, chain = sp, [d0]
+                    for d in (d1, d2, d0):
+                        cur = cur.astype(d)
+                        chain.append(d)
+                        if cur.dtype != np.dtype(d) or cur.shape != sp.shape or not (cur.weighting == sp.weighting) or cur.exponent != sp.exponent:
+                            return {'reproduced': True, 'detail': 'tensor_space(3, %s, weighting=2.0, exponent=1.5) after astype chain %s is %r' % (d0, ' -> '.join(chain), cur),
+                                    'input': {'chain': chain}}
+        return {'reproduced': False, 'detail': 'all astype chains of length 3 over %s give the requested dtype, shape and weighting' % (fl,)}
     if ob['unit'].startswith('derived/astype'):
         odl, np = _odl()
         for sp in (odl.rn(3), odl.rn(3, exponent=1.0), odl.rn(3, weighting=2.0), odl.rn(3, weighting=2.0, exponent=1.5), odl.rn(2, weighting=np.array([1.0, 2.0])),
                    odl.rn(2, weighting=np.array([1.0, 2.0]), exponent=1.0), odl.cn(3, exponent=1.0), odl.rn((2, 3), exponent=float('inf'))):
             for dt in ('float32', 'float64', 'complex64', 'complex128'):
-                new = sp.astype(dt)
+                try:
+                    new = sp.astype(dt)
+                except ValueError:
+                    continue        # array weighting that cannot be cast safely to the new dtype: rejected, not part of the claim
                 if new.shape != sp.shape or new.dtype != np.dtype(dt):
                     return {'reproduced': True, 'detail': '%r.astype(%s) = %r: shape / dtype' % (sp, dt, new)}
                 if not (new.weighting == sp.weighting) or new.exponent != sp.exponent:
